@@ -269,7 +269,57 @@ ADMISSIBLE = {
 }
 
 
+def sampled_perms(bs, k=22):
+    """For a multiset too big for all its orders: a deterministic sample that puts every bound whose literal is ==-equal to
+    another bound's literal of a different type (1 / True, 0 / False) first, last and just after the 10th position."""
+    import random as _random
+    n = len(bs)
+    rng = _random.Random(n * 7919 + sum(len(bound_sexp(b)) for b in bs))
+    base = list(range(n))
+
+    def lit(b):
+        return V.obj_to_py(b[1][1]) if b[0] == "L" and b[1][0] == "known" and b[1][1][0] in ("int", "bool", "flt") else None
+    special = [i for i in base if lit(bs[i]) is not None and any(
+        j != i and lit(bs[j]) is not None and lit(bs[j]) == lit(bs[i]) and type(lit(bs[j])) is not type(lit(bs[i])) for j in base)]
+    out, seen = [], set()
+
+    def add(p):
+        if tuple(p) not in seen:
+            seen.add(tuple(p))
+            out.append(tuple(p))
+    add(base)
+    add(base[::-1])
+    for i in special:
+        rest = [j for j in base if j != i]
+        rng.shuffle(rest)
+        add([i] + rest)
+        add(rest + [i])
+        if n > 10:
+            add(rest[:10] + [i] + rest[10:])
+    while len(out) < k:
+        q = base[:]
+        rng.shuffle(q)
+        add(q)
+    return out
+
+
+def literal_member_fails(b, sol):
+    """Reference membership (type(a) is type(b) and a == b), independent of pyanalyze: a literal lower bound against a solution
+    that is a literal or a union of literals. True = the solution does not contain the literal."""
+    if b[0] != "L" or b[1][0] != "known":
+        return False
+    try:
+        t = V.value_to_ty(sol)
+    except Exception:  # noqa: BLE001
+        return False
+    if not (t[0] == "known" or (t[0] == "union" and t[1] and all(x[0] == "known" for x in t[1]))):
+        return False
+    return not G.member(V.obj_to_py(b[1][1]), t)
+
+
 def distinct_perms(bs):
+    if len(bs) > 6:
+        return sampled_perms(bs)
     seen, out = set(), []
     for p in itertools.permutations(range(len(bs))):
         key = tuple(bound_sexp(bs[i]) for i in p)
@@ -335,6 +385,8 @@ def evaluate(ctx, multisets, with_model=True, uni=None, stream="solve", sample_e
         fails = []
         lo = up = oo = True
         for b, o in zip(pb, objs):
+            if b[0] == "L" and uni.tab is None and literal_member_fails(b, sol):
+                fails.append(("lower", "the solution %s does not contain the literal lower bound %s (reference membership)" % (sol, o.value)))
             if b[0] == "L" and not sol.is_assignable(o.value, checker):
                 lo = False
                 fails.append(("lower", "the solution %s does not accept the lower bound %s" % (sol, o.value)))
@@ -483,6 +535,32 @@ def gen_multisets(ctx):
         bs = random_multiset(rng, 5)
         if not risky([v for b in bs for v in bound_values(b)]):
             out.append(bs)
+    return out
+
+
+BIG_LITS = ([("known", ("int", n)) for n in range(10)] + [("known", ("bool", 0)), ("known", ("bool", 1)), ("known", ("str", "a")),
+            ("known", ("str", "ab")), ("known", ("none",)), ("known", ("flt", 1)), ("known", ("inst", V.CID[V.U.Color], 0)),
+            ("known", ("inst", V.CID[V.U.Color], 1)), ("known", ("inst", V.CID[V.U.IE], 0))])
+
+
+def gen_big(ctx):
+    """10-13 distinct literal lower bounds with ==-equal literals of different types planted (1 / True, 0 / False): the
+    accumulated lower bound reaches the 10-member fast path of MultiValuedValue; solved in ~22 sampled orders."""
+    rng = ctx.rng
+    planted = [[("known", ("int", 1)), ("known", ("bool", 1))], [("known", ("int", 0)), ("known", ("bool", 0))],
+               [("known", ("int", 1)), ("known", ("bool", 1)), ("known", ("int", 0)), ("known", ("bool", 0))]]
+    out = []
+    for k in range(ctx.n(10, 150)):
+        keep = planted[k % 3]
+        rest = [v for v in BIG_LITS if v not in keep]
+        rng.shuffle(rest)
+        vals = keep + rest[:rng.choice([10, 11, 12, 13]) - len(keep)]
+        bs = [("L", v) for v in vals]
+        if rng.random() < 0.3:
+            bs.append(("U", OBJ))
+        elif rng.random() < 0.2:
+            bs.append(("O", [OBJ, INT]))
+        out.append(bs)
     return out
 
 
@@ -1107,6 +1185,20 @@ def gen_gram(ctx):
         for ret in GRAM_RETURNS:
             for _ in range(ctx.n(2, 6)):
                 add(params, ret)
+    big_lits = ["0", "1", "2", "3", "4", "5", "6", "7", "8", "9", "True", "False", "'a'", "'ab'", "None", "2.5"]
+    for k in range(ctx.n(8, 60)):   # pick11(a: T, ..., k: T): 11-13 literal arguments with 1 / True or 0 / False among them
+        n = rng.choice([11, 12, 13])
+        keep = [["1", "True"], ["0", "False"], ["1", "True", "0", "False"]][k % 3]
+        rest = [x for x in big_lits if x not in keep]
+        rng.shuffle(rest)
+        args = keep + rest[:n - len(keep)]
+        r = rng.random()
+        if r < 0.4:
+            rng.shuffle(args)
+        elif r < 0.7:   # the ==-equal literal just after the 10th argument
+            x = args.pop(1)
+            args.insert(10, x)
+        cases.append({"params": [("tv", "T")] * n, "ret": rng.choice(["{0}", "None"]), "ret_role": "T", "args": args})
     for _ in range(ctx.n(220, 4000)):
         roles = rng.sample(sorted(GRAM_ROLES), rng.choice([1, 1, 2]))
         n = rng.choice([1, 1, 2, 3])
@@ -1273,7 +1365,9 @@ def run_gram(ctx, cases, with_model=True):
                     sol, seen = rec[1], set()
                     for b, o in zip(flat, objs):
                         kind = what = None
-                        if b[0] == "L" and not sol.is_assignable(o.value, checker):
+                        if literal_member_fails(b, sol):
+                            kind, what = "lower", "the solution %s does not contain the literal lower bound %s (reference membership)" % (sol, o.value)
+                        elif b[0] == "L" and not sol.is_assignable(o.value, checker):
                             kind, what = "lower", "the solution %s does not accept the lower bound %s" % (sol, o.value)
                         elif b[0] == "U" and not o.value.is_assignable(sol, checker):
                             kind, what = "upper", "the solution %s is not accepted by the upper bound %s" % (sol, o.value)
@@ -1355,6 +1449,7 @@ def run_all(ctx, with_model):
     CH = 4000
     for i in range(0, len(ms), CH):
         evaluate(ctx, ms[i:i + CH], with_model, stream="solve")
+    evaluate(ctx, gen_big(ctx), with_model, stream="solve-big", sample_every=61)
     # malformed stream: correspondence only (several constraint lists are outside the property)
     mal = gen_malformed(ctx)
     sub = Sub(ctx)
